@@ -66,12 +66,12 @@ class RealSession:
         c.on_connect_fail = lambda cl, ud: ev.append("on_connect_fail")
         if proto == 5:
             c.on_connect = lambda cl, ud, flags, reason, props: (ev.append(f"on_connect:{reason.value}:{flags['session present']}"), self.nested(cl) if cfg.get("cbw", 0) == 2 and reason.value == 0 else None)
-            c.on_disconnect = lambda cl, ud, rc, props=None: ev.append(self._disc(rc))
+            c.on_disconnect = lambda cl, ud, rc, props=None: (ev.append(self._disc(rc)), self.nested_reconnect(cl))
             c.on_subscribe = lambda cl, ud, mid, codes, props: ev.append(f"on_subscribe:{mid}:{codes[0].value}")
             c.on_unsubscribe = lambda cl, ud, mid, props, codes: ev.append(f"on_unsubscribe:{mid}")
         else:
             c.on_connect = lambda cl, ud, flags, rc: (ev.append(f"on_connect:{int(rc)}:{flags['session present']}"), self.nested(cl) if cfg.get("cbw", 0) == 2 and int(rc) == 0 else None)
-            c.on_disconnect = lambda cl, ud, rc: ev.append(self._disc(rc))
+            c.on_disconnect = lambda cl, ud, rc: (ev.append(self._disc(rc)), self.nested_reconnect(cl))
             c.on_subscribe = lambda cl, ud, mid, granted: ev.append(f"on_subscribe:{mid}:{granted[0]}")
             c.on_unsubscribe = lambda cl, ud, mid: ev.append(f"on_unsubscribe:{mid}")
         self.cb_left = cfg.get("cbn", 0)
@@ -92,6 +92,15 @@ class RealSession:
                     self.infos.append(info)
                     ev.append(f"cbpub:{cfg['cbpub']}:{int(info.rc)}:{info.mid}")
         self.nested = nested
+
+        def nested_reconnect(cl):
+            # cbw=4: the application re-establishes the connection from inside on_disconnect (the documented pattern with
+            # the manual loop); never with socket callbacks installed (known finding F17: that call blocks)
+            if cfg.get("cbw", 0) == 4 and self.cb_left > 0 and not cfg["ext"]:
+                self.cb_left -= 1
+                r = cl.reconnect()
+                ev.append(f"cbreconnect:{int(r)}")
+        self.nested_reconnect = nested_reconnect
 
         def on_publish(cl, ud, mid):
             ev.append(f"on_publish:{mid}")
@@ -368,6 +377,30 @@ def gen_backlog(rng, nested=False):
         if rng.random() < 0.1:
             case.append("rx none")
         k += 1
+    return case
+
+
+def gen_kafail(rng):
+    """scripted: the connection dies silently; the first write that notices is the keep-alive PINGREQ (or an acknowledgement);
+    the application calls reconnect() inside on_disconnect; the new connection must then be kept alive like any other:
+    pinged after K idle, not closed while its PINGREQs are answered"""
+    proto = rng.choice([4, 4, 5, 3])
+    ka = rng.choice([1, 2, 10, 60])
+    k = ka * 1000
+    cfg = dict(proto=proto, clean=rng.choice([0, 1]), N=rng.choice([1, 2, 20]), M=0, manual=0, rof=1, ext=0, ka=ka, sup=0,
+               cbpub=1, cbn=1, cbw=4, cbop=0)
+    case = ["cfg " + " ".join(f"{a}={b}" for a, b in cfg.items()), "connect ok", "rx connack 0 0"]
+    if rng.random() < 0.5:
+        case += [f"tick {k}", "loop_misc", "rx pingresp"]
+    if rng.random() < 0.6:
+        case += [f"tick {k}", "send e", "loop_misc"]                 # the PINGREQ cannot be written
+    else:
+        case += [f"tick {rng.choice([0, 500])}", "send e", f"rx publish 1 7 0 0 {hx(b't')} {hx(b'i')}"]   # the PUBACK cannot
+    case += ["rx connack 0 0"]
+    for _ in range(rng.randint(1, 3)):
+        d = rng.choice([0, 0, 500])
+        case += [f"tick {k - d}", "loop_misc"] + ([f"tick {d}", "loop_misc"] if d else []) + ["rx pingresp"]
+    case += [f"tick {k // 2}", "loop_misc"]
     return case
 
 
@@ -700,7 +733,7 @@ class ReentryStream(SessionStream):
     (callbacks that call back into the client are outside the session model); the independent monitors judge the real
     client's behaviour (C12 window / FIFO release, C13 order, C01 exactly-once)"""
     name = "reentry"
-    props = ["C01", "C12", "C13", "C18"]
+    props = ["C01", "C08", "C12", "C13", "C18"]
     has_model = False
 
     def gen(self, rng, tier):
@@ -708,8 +741,10 @@ class ReentryStream(SessionStream):
             return self.gen_window(rng)
         if rng.random() < 0.2:
             return gen_backlog(rng, nested=rng.random() < 0.7)
+        if rng.random() < 0.12:
+            return gen_kafail(rng)
         case = gen_case(rng, tier)
-        cfg = case[0] + f" cbpub={rng.choice([1, 1, 2])} cbn={rng.choice([1, 2, 3])} cbw={rng.choice([0, 0, 1, 2, 3])} cbop={rng.choice([0, 0, 0, 1, 2])}"
+        cfg = case[0] + f" cbpub={rng.choice([1, 1, 2])} cbn={rng.choice([1, 2, 3])} cbw={rng.choice([0, 0, 1, 2, 3, 4])} cbop={rng.choice([0, 0, 0, 1, 2])}"
         # small windows make the release order visible
         if rng.random() < 0.7:
             cfg = " ".join((f"N={rng.choice([1, 1, 2])}" if w.startswith("N=") else "ext=0" if w.startswith("ext=") else w) for w in cfg.split())
